@@ -72,6 +72,10 @@ def gen_history(rng, maxlen: int):
             ops.append(("enableOnly", names(), rng.random() < 0.4))
         elif k < 0.72:
             ops.append(("disable", names(), rng.random() < 0.4))
+        elif k < 0.8:
+            # lazy iterable of names that re-enters getRules while it is being consumed (ignoreInvalid=True)
+            items = [((rng.choice(CHAINS) if rng.random() < 0.6 else None), name()) for _ in range(rng.choice([1, 2, 3]))]
+            ops.append(("lazy", rng.random() < 0.5, items))
         elif k < 0.9:
             ops.append(("get", rng.choice(CHAINS)))
         elif k < 0.95:
@@ -91,6 +95,9 @@ def enc_op(op) -> str:
         return f"{k}:{enc_list(op[1])}:{1 if op[2] else 0}"
     if k == "get":
         return f"get:{enc(op[1])}"
+    if k == "lazy":
+        items = ",".join(("!" if cb is None else enc(cb)) + ">" + enc(n) for cb, n in op[2]) or "~"
+        return f"lazy:{1 if op[1] else 0}:{items}"
     return k
 
 
@@ -135,6 +142,14 @@ def run_impl(ops, oracle_rng=None):
                 changed += 1
             elif k == "disable":
                 o = "n:" + enc_list(r.disable(list(op[1]), op[2]))
+                changed += 1
+            elif k == "lazy":
+                def gen(items=op[2]):
+                    for cb, nm in items:
+                        if cb is not None:
+                            r.getRules(cb)          # a re-entrant parse asking for a chain
+                        yield nm
+                o = "n:" + enc_list((r.enable if op[1] else r.disable)(gen(), True))
                 changed += 1
             elif k == "get":
                 o = "f:" + (",".join(str(f.n) for f in r.getRules(op[1])) or "~")
